@@ -1,127 +1,78 @@
-(* C01 -- OPEN findings of the audit round (2026-10-02): the faithful model (= the current code) violates the
-   property text at these concrete inputs; each witness was reproduced on the real dateutil (notes/rr.md).  Every
-   witness lies inside the complement of a guard of the loop theorems.  vm_compute only. *)
+(* C01 -- the four findings of the audit round (2026-10-02), REPAIRED in /repo on the same day (55654b4 BYMONTHDAY=0,
+   e1e7505 out-of-range members of the rule's own time unit, 8ced7a9 the week that contains 9999-12-31, 3426f68 the
+   first week before 0001-01-01).  Before the fixes these inputs were `_refuted` witnesses (the faithful model, like
+   the code, violated the property text there); the model follows the fixed code and they are now regression
+   theorems: model = specification, resp. ValueError at construction.  vm_compute only. *)
 From Coq Require Import ZArith List Bool Lia.
 From V Require Import base.Cal rr.RRBase rr.RRNorm rr.RRMasks rr.RRIter rr.RRSpec rr.RRSpecX rr.RRFilterSpec
   rr.RRWeeklyThm.
 Import ListNotations.
 Open Scope Z_scope.
 
-(* ---- F-C01-last-week-9999.  The WKST-week that contains 9999-12-31 reaches into year 10000; the code builds the
-   week's day set with those days and `date.fromordinal` raises ValueError for the first surviving one.
-   (a) with BYSETPOS the whole week is lost, although its representable days are candidates:
-       rrule(WEEKLY, dtstart=datetime(9999,12,20,9,0), wkst=MO, byweekday=(MO..SU), bysetpos=-1)
-       yields [9999-12-26] and raises; the specified sequence is [9999-12-26; 9999-12-31]. *)
+(* rrule(WEEKLY, dtstart=datetime(9999,12,20,9,0), wkst=MO, byweekday=(MO..SU), bysetpos=-1): before 8ced7a9
+   [9999-12-26] and ValueError; now the last week consists of its representable days and the run stops at year 9999 *)
 Definition raw_last_week_setpos : raw :=
   mkRaw WEEKLY false 9999 12 20 9 0 0 1 0 None None false
         (Some [-1]) None None None None None
         (Some [(0, 0); (1, 0); (2, 0); (3, 0); (4, 0); (5, 0); (6, 0)]) None None None.
 
-Theorem rrule_iter_refuted_last_week_9999 :
-  exists r rl limit n,
-    normalize r = Ok rl /\ spec_wf r = true /\ r_freq r = WEEKLY /\ r_byeaster r = None /\ r_byweekno r = None /\
-    1 <= ws0 r /\
-    (* the complement of the loop theorems' guard  wlo r (n - 1) + 6 <= max_ord *)
-    max_ord < wlo r (Z.of_nat n - 1) + 6 /\
-    fst (iterate rl limit n) = [(ord_of_ymd 9999 12 26, 32400)] /\
-    snd (iterate rl limit n) = TRaised EValue /\
-    fst (spec_iter r limit n) = [(ord_of_ymd 9999 12 26, 32400); (ord_of_ymd 9999 12 31, 32400)].
-Proof.
-  exists raw_last_week_setpos.
-  destruct (normalize raw_last_week_setpos) as [rl|e] eqn:E; [|vm_compute in E; discriminate E].
-  exists rl, 100, 5%nat. split; [reflexivity|].
-  assert (Erl : Ok rl = normalize raw_last_week_setpos) by (symmetry; exact E).
-  vm_compute in Erl. injection Erl as ->.
-  repeat split; try reflexivity; vm_compute; try reflexivity; try discriminate.
-Qed.
+Theorem regress_last_week_9999_setpos :
+  spec_wf raw_last_week_setpos = true /\ max_ord < wlo raw_last_week_setpos 4 + 6 /\
+  match normalize raw_last_week_setpos with
+  | Ok rl => iterate rl 100 5 = ([(ord_of_ymd 9999 12 26, 32400); (ord_of_ymd 9999 12 31, 32400)], TMaxYear) /\
+             fst (iterate rl 100 5) = fst (spec_iter raw_last_week_setpos 100 5)
+  | Err _ => False
+  end.
+Proof. split; [reflexivity|]. split; [vm_compute; reflexivity|vm_compute; split; reflexivity]. Qed.
 
-(* (b) without BYSETPOS every representable occurrence is yielded, but the generator then ends with ValueError
-       instead of stopping: rrule(WEEKLY, dtstart=datetime(9999,12,20,9,0), wkst=MO) with all seven weekdays yields
-       9999-12-20 .. 9999-12-31 and raises (list(rule) raises; the specified sequence is complete and finite). *)
+(* the same rule without BYSETPOS: before 8ced7a9 all twelve days and then ValueError; now a clean stop *)
 Definition raw_last_week_plain : raw :=
   mkRaw WEEKLY false 9999 12 20 9 0 0 1 0 None None false
         None None None None None None
         (Some [(0, 0); (1, 0); (2, 0); (3, 0); (4, 0); (5, 0); (6, 0)]) None None None.
 
-Theorem rrule_raises_refuted_last_week_9999 :
-  exists r rl limit n,
-    normalize r = Ok rl /\ spec_wf r = true /\ max_ord < wlo r (Z.of_nat n - 1) + 6 /\
-    fst (iterate rl limit n) = fst (spec_iter r limit n) /\ length (fst (iterate rl limit n)) = 12%nat /\
-    snd (iterate rl limit n) = TRaised EValue /\ snd (spec_iter r limit n) = SExhausted.
-Proof.
-  exists raw_last_week_plain.
-  destruct (normalize raw_last_week_plain) as [rl|e] eqn:E; [|vm_compute in E; discriminate E].
-  exists rl, 100, 5%nat. split; [reflexivity|].
-  assert (Erl : Ok rl = normalize raw_last_week_plain) by (symmetry; exact E).
-  vm_compute in Erl. injection Erl as ->.
-  repeat split; try reflexivity; vm_compute; try reflexivity; try discriminate.
-Qed.
+Theorem regress_last_week_9999_plain :
+  spec_wf raw_last_week_plain = true /\
+  match normalize raw_last_week_plain with
+  | Ok rl => fst (iterate rl 100 5) = fst (spec_iter raw_last_week_plain 100 5) /\
+             length (fst (iterate rl 100 5)) = 12%nat /\ snd (iterate rl 100 5) = TMaxYear
+  | Err _ => False
+  end.
+Proof. split; [reflexivity|vm_compute; repeat split; reflexivity]. Qed.
 
-(* ---- F-C01-year1-setpos-week.  WEEKLY + BYSETPOS whose first WKST-week begins before 0001-01-01: fix 12b1f51
-   leaves the cursor on the start when `ordinal - back < 1`, so the positions of the first week are counted from
-   the start although 0001-01-01 .. are representable candidates of the same week:
-       rrule(WEEKLY, dtstart=datetime(1,1,3,9,0), wkst=SU, byweekday=(MO..SU), bysetpos=1, count=2)
-   yields 0001-01-03 first; the specified sequence starts with 0001-01-07 (position 1 of the first week is
-   0001-01-01, which precedes the start). *)
+(* rrule(WEEKLY, dtstart=datetime(1,1,3,9,0), wkst=SU, byweekday=(MO..SU), bysetpos=1, count=2): before 3426f68 the
+   first occurrence was 0001-01-03; position 1 of the first week is 0001-01-01, which precedes the start *)
 Definition raw_year1_setpos : raw :=
   mkRaw WEEKLY false 1 1 3 9 0 0 1 6 (Some 2) None false
         (Some [1]) None None None None None
         (Some [(0, 0); (1, 0); (2, 0); (3, 0); (4, 0); (5, 0); (6, 0)]) None None None.
 
-Theorem rrule_iter_refuted_year1_setpos_week :
-  exists r rl limit n,
-    normalize r = Ok rl /\ spec_wf r = true /\ r_freq r = WEEKLY /\ r_bysetpos r <> None /\
-    (* the complement of the loop theorems' guard  1 <= ws0 r *)
-    ws0 r < 1 /\
-    fst (iterate rl limit n) = [(ord_of_ymd 1 1 3, 32400); (ord_of_ymd 1 1 7, 32400)] /\
-    fst (spec_iter r limit n) = [(ord_of_ymd 1 1 7, 32400); (ord_of_ymd 1 1 14, 32400)].
-Proof.
-  exists raw_year1_setpos.
-  destruct (normalize raw_year1_setpos) as [rl|e] eqn:E; [|vm_compute in E; discriminate E].
-  exists rl, 100, 5%nat. split; [reflexivity|].
-  assert (Erl : Ok rl = normalize raw_year1_setpos) by (symmetry; exact E).
-  vm_compute in Erl. injection Erl as ->.
-  repeat split; try reflexivity; vm_compute; try reflexivity; try discriminate.
-Qed.
+Theorem regress_year1_setpos_week :
+  spec_wf raw_year1_setpos = true /\ ws0 raw_year1_setpos < 1 /\
+  match normalize raw_year1_setpos with
+  | Ok rl => fst (iterate rl 100 5) = [(ord_of_ymd 1 1 7, 32400); (ord_of_ymd 1 1 14, 32400)] /\
+             fst (iterate rl 100 5) = fst (spec_iter raw_year1_setpos 100 5)
+  | Err _ => False
+  end.
+Proof. split; [reflexivity|]. split; [vm_compute; reflexivity|vm_compute; split; reflexivity]. Qed.
 
-(* ---- F-C01-outofrange-typeerror.  A member of the rule's OWN time unit that is outside its range can never be
-   reached by `__mod_distance`, which then returns None; unpacking it raises TypeError at the first iteration:
-       rrule(HOURLY, dtstart=datetime(2020,1,1,9,0), byhour=24)      (also byhour=-1, MINUTELY byminute=60, ...)
-   The property allows ValueError or an empty sequence. *)
+(* rrule(HOURLY, dtstart=datetime(2020,1,1,9,0), byhour=24): before e1e7505 TypeError at the first iteration; now the
+   member is skipped by __construct_byset and the empty set raises ValueError at construction *)
 Definition raw_hourly_byhour24 : raw :=
   mkRaw HOURLY false 2020 1 1 9 0 0 1 0 None None false
         None None None None None None None (Some [24]) None None.
 
-Theorem rrule_raises_refuted_outofrange_typeerror :
-  exists r rl limit n,
-    normalize r = Ok rl /\ spec_xwf r = true /\ spec_wf r = false /\
-    iterate rl limit n = ([], TRaised EType) /\ spec_iter r limit n = ([], SFuel).
-Proof.
-  exists raw_hourly_byhour24.
-  destruct (normalize raw_hourly_byhour24) as [rl|e] eqn:E; [|vm_compute in E; discriminate E].
-  exists rl, 100, 5%nat. split; [reflexivity|].
-  assert (Erl : Ok rl = normalize raw_hourly_byhour24) by (symmetry; exact E).
-  vm_compute in Erl. injection Erl as ->.
-  repeat split; vm_compute; reflexivity.
-Qed.
+Theorem regress_outofrange_valueerror :
+  spec_xwf raw_hourly_byhour24 = true /\ spec_wf raw_hourly_byhour24 = false /\
+  normalize raw_hourly_byhour24 = Err EValue /\ fst (spec_iter raw_hourly_byhour24 100 5) = [].
+Proof. repeat split; vm_compute; reflexivity. Qed.
 
-(* ---- F-C01-bymonthday-zero.  BYMONTHDAY=0 can never match (days of the month are 1..31 / -31..-1); the
-   constructor splits the members into x > 0 and x < 0, drops 0 silently and -- when nothing is left -- applies NO
-   month-day restriction: rrule(DAILY, dtstart=datetime(2020,1,1,9,0), bymonthday=0) yields every day. *)
+(* rrule(DAILY, dtstart=datetime(2020,1,1,9,0), bymonthday=0): before 55654b4 every day; now ValueError *)
 Definition raw_daily_bymonthday0 : raw :=
   mkRaw DAILY false 2020 1 1 9 0 0 1 0 None None false
         None None (Some [0]) None None None None None None None.
 
-Theorem rrule_iter_refuted_bymonthday_zero :
-  exists r rl limit n,
-    normalize r = Ok rl /\ spec_xwf r = true /\ spec_wf r = false /\
-    fst (iterate rl limit n) = [(ord_of_ymd 2020 1 1, 32400); (ord_of_ymd 2020 1 2, 32400); (ord_of_ymd 2020 1 3, 32400)] /\
-    fst (spec_iter r limit n) = [].
-Proof.
-  exists raw_daily_bymonthday0.
-  destruct (normalize raw_daily_bymonthday0) as [rl|e] eqn:E; [|vm_compute in E; discriminate E].
-  exists rl, 3, 40%nat. split; [reflexivity|].
-  assert (Erl : Ok rl = normalize raw_daily_bymonthday0) by (symmetry; exact E).
-  vm_compute in Erl. injection Erl as ->.
-  repeat split; vm_compute; reflexivity.
-Qed.
+Theorem regress_bymonthday_zero :
+  spec_xwf raw_daily_bymonthday0 = true /\ spec_wf raw_daily_bymonthday0 = false /\
+  normalize raw_daily_bymonthday0 = Err EValue /\ fst (spec_iter raw_daily_bymonthday0 3 40) = [].
+Proof. repeat split; vm_compute; reflexivity. Qed.
